@@ -277,6 +277,12 @@ type streamFamily struct {
 	gen  func(s *simrt.Sim) *item
 }
 
+// widths is the number of length-prefix widths an item may draw from. Only the first item of a stream
+// uses the 8-byte width: should a defective helper misalign the stream, a later item's 8-byte prefix
+// would be read from arbitrary bytes, and stream.ReadBytes turns values between 2^33 and 2^47 into an
+// unrecoverable runtime out-of-memory abort of the whole worker (see faults.go dangerous()).
+var widths = 4
+
 var streamFamilies = []streamFamily{
 	{"Read", func(s *simrt.Sim) *item { return genScalarItem(s, "Read") }},
 	{"ReadBytes", func(s *simrt.Sim) *item {
@@ -292,7 +298,7 @@ var streamFamilies = []streamFamily{
 			}}
 	}},
 	{"ReadBytesWithSize", func(s *simrt.Sim) *item {
-		lt := s.Choose(4)
+		lt := s.Choose(widths)
 		b := bytesPayload(s, lt)
 		return &item{helper: "ReadBytesWithSize", desc: fmt.Sprintf("%d bytes prefix=%s", len(b), lenTypeNames[lt]),
 			write: func(w io.WriteSeeker) error { return stream.WriteBytesWithSize(w, b, lenTypes[lt]) },
@@ -305,7 +311,7 @@ var streamFamilies = []streamFamily{
 			}}
 	}},
 	{"ReadObject", func(s *simrt.Sim) *item { return objectItem(s, "ReadObject", false, 0) }},
-	{"ReadObjectWithSize", func(s *simrt.Sim) *item { return objectItem(s, "ReadObjectWithSize", true, 1+s.Choose(3)) }},
+	{"ReadObjectWithSize", func(s *simrt.Sim) *item { return objectItem(s, "ReadObjectWithSize", true, 1+s.Choose(widths-1)) }},
 	{"ReadCollection", func(s *simrt.Sim) *item { return collectionItem(s, false) }},
 	{"PeekSize", func(s *simrt.Sim) *item { return collectionItem(s, true) }},
 	{"ReadObjectFromReader", func(s *simrt.Sim) *item {
@@ -344,7 +350,7 @@ var streamFamilies = []streamFamily{
 // collectionItem: WriteCollection / ReadCollection (optionally preceded by PeekSize) with elements
 // written by Write[T] (inner 0/1) or WriteBytesWithSize (inner 2).
 func collectionItem(s *simrt.Sim, peek bool) *item {
-	lt := s.Choose(4)
+	lt := s.Choose(widths)
 	// elements are read with Read[T] or, rarely, ReadBytesWithSize (whose single-Read defect has its own
 	// signatures under the ReadBytesWithSize family; here it would only multiply them)
 	inner := s.Choose(2)
@@ -396,8 +402,8 @@ func collectionItem(s *simrt.Sim, peek bool) *item {
 			err := stream.ReadCollection(r, lenTypes[lt], func(i int) error {
 				seen++
 				if i >= cnt {
-					diff = fmt.Sprintf("callback for element %d of %d", i, cnt)
-					return nil
+					// stop: a wrong (e.g. byte-swapped) count would otherwise iterate for ever
+					return fmt.Errorf("callback for element %d of a collection of %d", i, cnt)
 				}
 				switch inner {
 				case 0:
@@ -450,6 +456,10 @@ func streamBody(s *simrt.Sim) {
 	buf := stream.NewByteBuffer()
 	var items []*item
 	for i := 0; i < nitems; i++ {
+		widths = 4
+		if i > 0 {
+			widths = 3
+		}
 		it := fam.gen(s)
 		items = append(items, it)
 		var err error
